@@ -15,7 +15,7 @@ func init() {
 	Register(&c13{base{
 		id: "C13", level: "exploration",
 		technique: "metamorphic monitor: template with a subset of its delimiters dashed vs the same template with the dashes removed and the governed whitespace deleted by the generator; all 2^d subsets for d <= 10 delimiters, random subsets above",
-		rule: "case = (template from a per-tag-kind corpus or a generated program, dash subset, whitespace padding of every text piece drawn from {space, tab, CR, LF}^0..4 around a non-blank core that in a sixth of the pieces starts or ends with a look-alike that is not one of the four (NBSP, VT, FF, NEL, U+2003, U+2028, U+3000, NUL, BOM, ZWSP, 0x1F, a lone 0xA0 byte)); both versions are rendered once on fresh engines; outputs must be equal and the dashed version must parse whenever the plain one does. " +
+		rule: "case = (template from a per-tag-kind corpus or a generated program, dash subset, whitespace padding of every text piece drawn from {space, tab, CR, LF}^0..4 around a non-blank core that in a sixth of the pieces starts or ends with a look-alike that is not one of the four (NBSP, VT, FF, NEL, U+2003, U+2028, U+3000, NUL, BOM, ZWSP, 0x1F, a lone 0xA0 byte)); both versions are rendered once on fresh engines; outputs must be equal and the dashed version must parse whenever the plain one does. After the dashed render a fixed probe template without dashes is parsed on a fresh engine and must render as written, and both versions are parsed and rendered a second time with the same result (a dash has no effect on the templates parsed after it). " +
 			"Non-trivial: at least one dashed delimiter borders a text piece with whitespace on that side. Distinct = distinct dashed source.",
 		assumptions: []string{
 			"text between two tags is empty or contains a non-blank character (whether trimming continues through a tag is not stated)",
@@ -26,7 +26,7 @@ func init() {
 }
 
 func (p *c13) RequiredCounters(string) []string {
-	return []string{"class:corpus-exhaustive", "class:program-random", "long-sources"}
+	return []string{"class:corpus-exhaustive", "class:program-random", "long-sources", "after-dash-probes"}
 }
 
 // corpus: one entry per tag kind / boundary. Entry = template set + main + context.
@@ -205,6 +205,26 @@ func (p *c13) checkBits(rec *core.Recorder, class string, srcsPlain map[string]s
 	if rd.Err != nil {
 		rec.Violate("dash-acceptance", core.SigHash("c13-parse", dsrc),
 			fmt.Sprintf("dashes changed whether the template works: %v; dashed source %s (plain source renders fine)", rd.Err, core.Q(core.Trunc(dsrc, 300))), cs, "")
+		return
+	}
+	// "no other effect": the template parsed next (a fresh engine, the same process) is not touched by the dashes of this
+	// one. A fixed probe that begins and ends with blanks around its tags, and the hand-trimmed twin once more.
+	probe, probeWant := " \n\t{{ 'p' }} \n{% if true %} y {% endif %}\n {{ 'q' }}  ", " \n\tp \n y \n q  "
+	if core.Hash64(dsrc, "probe")%8 == 0 {
+		probe, probeWant = probe+largeTwinPad, probeWant
+	}
+	rq := renderFresh(map[string]string{"probe": probe}, "probe", nil, nil)
+	rec.Count("after-dash-probes", 1)
+	if rq.Panicked || rq.Err != nil || rq.Out != probeWant {
+		rec.Violate("dash-leaks", "c13-leak-probe",
+			fmt.Sprintf("a template without dashes, parsed right after a dashed one, renders %s (err=%v) instead of %s; the dashed source before it: %s", core.Q(rq.Out), rq.Err, core.Q(probeWant), core.Q(core.Trunc(dsrc, 300))), cs, "")
+		return
+	}
+	rd2 := renderFresh(mk(dsrc), main, ctx, nil)
+	rh2 := renderFresh(mk(hsrc), main, ctx, nil)
+	if rh2.Out != rh.Out || (rh2.Err != nil) != (rh.Err != nil) || rd2.Out != rd.Out {
+		rec.Violate("dash-leaks", core.SigHash("c13-leak", dsrc),
+			fmt.Sprintf("the hand-trimmed template renders %s when parsed before the dashed one and %s when parsed after it (dashed, parsed again: %s); dashed source %s", core.Q(core.Trunc(rh.Out, 200)), core.Q(core.Trunc(rh2.Out, 200)), core.Q(core.Trunc(rd2.Out, 200)), core.Q(core.Trunc(dsrc, 300))), cs, "")
 		return
 	}
 	if rd.Out != rh.Out {
